@@ -294,3 +294,21 @@ Definition route (cfg : config) (rules : list rule) (t : target) : outcome :=
   | Plain => if transport_shares_proxy_func then route_plain rules (proxy_for cfg t) t
              else route_plain rules PDirect t
   end.
+
+(* ------------------------------------------------------------------ one exchange as a trace of socket events *)
+(* net.go: Dialer.DialContext applies the redirect to every dial; dialContext retries the SAME address
+   (attempts <= 0 means 1).  `failures` = how many consecutive dial attempts fail (environment). *)
+Inductive event := EvDial (addr : str) | EvUse (addr : str) (tls : bool) (w : wire).
+
+Definition effective_attempts (n : nat) : nat := match n with O => 1%nat | _ => n end.
+
+Definition exchange (cfg : config) (rules : list rule) (t : target) (attempts failures : nat) : list event :=
+  match route cfg rules t with
+  | OFail => []
+  | OSent a tls w =>
+      if Nat.ltb failures (effective_attempts attempts)
+      then repeat (EvDial a) (S failures) ++ [EvUse a tls w]
+      else repeat (EvDial a) (effective_attempts attempts)
+  end.
+
+Definition event_addr (e : event) : str := match e with EvDial a => a | EvUse a _ _ => a end.
